@@ -10,6 +10,7 @@
 -/
 import Rsdns.Lemmas.Reader
 import Rsdns.Lemmas.Encode
+import Rsdns.Props.C05
 
 namespace Rsdns.C17
 
@@ -81,6 +82,53 @@ theorem prepare_message_no_ub (c : Cfg) (id : Nat) (qname : Bytes) (qtype qclass
   have h := query_writer_no_ub c.queryBufferSize id qname qtype qclass c.rd (clientOpt c buflen)
   unfold prepareMessage
   cases hw : writeQuery c.queryBufferSize id qname qtype qclass c.rd (clientOpt c buflen) <;> simp_all [Res.noUB]
+
+/-- helper: along the loop the unchecked comparison agrees with the total one and never reaches `ub` -/
+theorem nameCmpUFrom_eq (a b : Bytes) (fuel i : Nat) :
+    nameCmpUFrom a b fuel i = .ok (nameCmpFrom a b fuel i) := by
+  induction fuel generalizing i with
+  | zero => simp [nameCmpUFrom, nameCmpFrom]
+  | succ f ih =>
+    unfold nameCmpUFrom nameCmpFrom
+    by_cases hi : i < min a.size b.size
+    · have ha : i < a.size := by omega
+      have hb : i < b.size := by omega
+      simp only [hi, ha, hb, if_true, ih, apply_ite Res.ok]
+    · simp only [hi, if_false]
+
+/-- **C17, ordering of names.**  `Ord::cmp` of `Name` and of `InlineName` indexes both operands with
+    `get_unchecked(i)` for `i` below the SHORTER length; for any two byte strings — in particular for names
+    of different lengths, the empty name and names at the 255-octet capacity — neither access is out of
+    range, and the verdict is the total function `nameCmp` the C18 theorems are about. -/
+theorem name_cmp_no_ub (a b : Bytes) : nameCmpU a b = .ok (nameCmp a b) :=
+  nameCmpUFrom_eq a b _ 0
+
+theorem name_cmp_noUB (a b : Bytes) : (nameCmpU a b).noUB := by
+  rw [name_cmp_no_ub]; trivial
+
+/-- text-side entry points (`Name::from`, `InlineName::from`, `check_name`, the label-splitting loop with
+    its `get_unchecked(i..j)`): a value, an error or the documented capacity panic — never `ub` -/
+theorem parse_no_ub (k : NameKind) (s : Bytes) : (parseName k s).noUB ∧ (checkNameBytes s).noUB := by
+  have hc := C05.check_total s
+  refine ⟨?_, ?_⟩
+  · unfold parseName
+    cases hcs : checkNameBytes s with
+    | err e => trivial
+    | panic p => rw [hcs] at hc; exact absurd hc (by simp [Res.safe])
+    | ub => rw [hcs] at hc; exact absurd hc (by simp [Res.safe])
+    | ok u =>
+      simp only
+      have hne : s.size ≠ 0 := by
+        intro h0
+        unfold checkNameBytes at hcs
+        simp [h0] at hcs
+      simp only [hne, if_false]
+      split
+      · trivial
+      · split
+        · split <;> trivial
+        · trivial
+  · cases hcs : checkNameBytes s <;> simp_all [Res.safe, Res.noUB]
 
 /-! non-vacuity: the reader over a 12-byte message exists, and a marker taken elsewhere (offset 38,
     zero length) is an admissible argument -/
